@@ -108,9 +108,9 @@ const (
 	// (6.0.0 keeps the order and inserts two dotted circles, the port reorders
 	// the pre-base sign), Mongolian U+18A9 U+07FD.
 	ClsUSEMarkInitial = "skew(c) capability: USE-shaper run with a mark-initial (broken) cluster (USE data / dotted-circle handling revised after 6.0.0)"
-	ClsVarRounding = "tolerance: interpolated values under variation coordinates differ by at most 1 font unit"
-	ClsGoPanic     = "go side panicked (C01)"
-	ClsCFail        = "reference failed: hb_shape_full returned false"
+	ClsVarRounding    = "tolerance: interpolated values under variation coordinates differ by at most 1 font unit"
+	ClsGoPanic        = "go side panicked (C01)"
+	ClsCFail          = "reference failed: hb_shape_full returned false"
 )
 
 // features the shapers enable on their own (hb-ot-shape.cc common and
@@ -343,13 +343,16 @@ const (
 	KeyMyanmarRa = "C05/defect/Myanmar consonant flags wrong: Ra missing, categories 0-3 (incl. dot below) counted (1<< missing in consonantFlagsMyanmar)"
 	// font: extents of a non-empty glyph differ from the reference (decoded
 	// metrics, C10's domain) and shift fallback mark positioning.
-	KeyExtentsDiffer  = "C05/defect/GlyphExtents of a non-empty glyph differ from the reference (fallback mark positioning shifted)"
+	KeyExtentsDiffer = "C05/defect/GlyphExtents of a non-empty glyph differ from the reference (fallback mark positioning shifted)"
 	// harfbuzz/ot_layout_gpos.go: the base cache (lastBase / lastBaseUntil) is
-	// shared by applyGPOSMarkToLigature and applyGPOSMarkToBase; a MarkLigPos
+	// shared by applyGPOSMarkToLigature and applyGPOSMarkToBase and is only
+	// reset once per table (otApplyContext.reset), not per lookup (upstream
+	// resets last_base / last_base_until in set_lookup_mask). A MarkLigPos
 	// lookup that stops at the second glyph of a MultipleSubst sequence leaves
 	// that glyph cached, and the following MarkBasePos lookup (which would skip
 	// it: issue #4124 rule) does not search again, so the mark stays
-	// unattached. Witness: Estedad-VF "\u0628\u0650\u064A" alone: kasra @0,0 in
+	// unattached. Confirmed with a trace on a scratch worktree (lookup 4
+	// MarkLig sets lastBase=1,until=2; lookup 5 MarkBase enters with them). Witness: Estedad-VF "\u0628\u0650\u064A" alone: kasra @0,0 in
 	// the port, @252,-486 in 6.0.0 — and in the port too when other text
 	// precedes (C18 sees the same thing as an unsafe cut).
 	KeyLastBaseCache  = "C05/defect/mark left unattached after a MultipleSubst sequence (stale lastBase cache shared by MarkLigPos and MarkBasePos)"
@@ -362,19 +365,7 @@ var arabicMCM220 = map[rune]bool{0x0655: true, 0x06E3: true, 0x08CF: true, 0x08D
 // defectKey recognises the known port defects.
 func defectKey(p *Pair, c *Case, v *Verdict) string {
 	fi := p.Info
-	if fi.GoGPOSDropped {
-		return KeyGPOSDropped
-	}
-	if fi.GoGSUBDropped {
-		return KeyGSUBDropped
-	}
 	kind := DiffKind(v.Go, v.C)
-	if len(c.Vars) > 0 {
-		coords := p.goFont(c).Face().Coords()
-		if p.Go.GSUB.FindVariationIndex(coords) >= 0 || p.Go.GPOS.FindVariationIndex(coords) >= 0 {
-			return KeyFeatureVariations
-		}
-	}
 	ranged := false
 	for _, f := range c.Feats {
 		if f.Start != 0 || f.End >= 0 {
@@ -386,6 +377,25 @@ func defectKey(p *Pair, c *Case, v *Verdict) string {
 		nat := p.Resolve(&Case{Font: c.Font, Index: c.Index, Text: c.Text, Off: c.Off, Len: c.Len, Script: scriptString(v.RS.Script)})
 		if v.RS.Dir == hbref.DirBTT || ((v.RS.Dir == hbref.DirLTR || v.RS.Dir == hbref.DirRTL) && v.RS.Dir != nat.Dir) {
 			return KeyReverseGraphemes
+		}
+	}
+	if kind == "advance" {
+		for _, r := range c.Item() {
+			if r == 0x2007 {
+				return KeyFigureSpace
+			}
+		}
+	}
+	if fi.GoGPOSDropped {
+		return KeyGPOSDropped
+	}
+	if fi.GoGSUBDropped {
+		return KeyGSUBDropped
+	}
+	if len(c.Vars) > 0 {
+		coords := p.goFont(c).Face().Coords()
+		if p.Go.GSUB.FindVariationIndex(coords) >= 0 || p.Go.GPOS.FindVariationIndex(coords) >= 0 {
+			return KeyFeatureVariations
 		}
 	}
 	if v.Cat == "arabic" {
@@ -402,13 +412,6 @@ func defectKey(p *Pair, c *Case, v *Verdict) string {
 			// (U+1037 and the nuktas, ccc 7, which share that category)
 			if r == 0x1004 || r == 0x101B || r == 0x105A || r == 0x1037 || ucd.LookupCombiningClass(r) == 7 {
 				return KeyMyanmarRa
-			}
-		}
-	}
-	if kind == "advance" {
-		for _, r := range c.Item() {
-			if r == 0x2007 {
-				return KeyFigureSpace
 			}
 		}
 	}
